@@ -8,6 +8,7 @@ from . import common as C, lin
 
 PROP = "C11"
 PROPS_FILE = "props/C11.v"
+IMPORTS = "C11_kalman"
 RULE = ("cases = static: Gaussian prior (Dw in 1..3) and N in 1..4 (quick) / 1..6 (thorough) linear-Gaussian observations with "
         "individual (M_i, b_i, Sigma_i), Dy in 1..3 with Dy != Dw included, a random permutation of the update order; state "
         "space: random (A, b, Q, C, d, R), Dz, Dx in 1..2, T in 1..4 (quick) / 1..12 (thorough); non-trivial = N >= 2 or "
@@ -39,7 +40,7 @@ def gen_kalman(g, Dz, Dx, T):
     return dict(scn="kalman", Dz=Dz, Dx=Dx, T=T, prior=lin.gen_pdfv(g, 1, Dz, ctor="Sigma"),
                 state=dict(lin.gen_cond(g, g.choice(["full", "diag"]), 1, Dz, Dz, ctor=g.choice(["Sigma", "Lambda"])), b=[g.vec(Dz)]),
                 emis=dict(lin.gen_cond(g, g.choice(["full", "diag"]), 1, Dx, Dz, ctor=g.choice(["Sigma", "Lambda"])), b=[g.vec(Dx)]),
-                ys=g.mat(T, Dx))
+                ys=g.mat(T, Dx), traj=g.mat(T + 1, Dz))
 
 
 def gen_descs(g, tier):
@@ -114,7 +115,15 @@ def coq_term(d):
         pred = "(affine_marginal %s %s)" % (st, t)
         parts.append("dL 1 (ueval (affine_marginal %s %s) ^~ (lv %s))" % (em, pred, cvec(y)))
         t = "(condition_on_x (affine_conditional %s %s) (lxs %s))" % (em, pred, cmat([y]))
-    return "(let f := %s in obs_ucore f ++ obs_ucache f) ++ %s" % (t, " ++ ".join(parts))
+    traj = d.get("traj") or [[Fr(0)] * d["Dz"]] * (d["T"] + 1)
+    steps = cseq(["KStep %s %s (lv %s)" % (st, em, cvec(y)) for y in d["ys"]])
+    p0 = lin.coq_pdfv(d["prior"])
+    x0 = "(lv %s)" % cvec(traj[0]); xs = "(lxs %s)" % cmat(traj[1:])
+    # the same filter through the definitions the all-T theorem is about (proofs/C11_kalman.v): evidence, filtered
+    # density at the last state, full joint log-density of the trajectory and the sum of the backward kernels
+    kal = ("(let ss := %s in let p0 := %s in dumpL (kevidence ss p0) ++ dumpL (ueval (kfilter ss p0) 0%%N (last %s %s)) "
+           "++ dumpL (kjoint ss p0 %s %s) ++ dumpL (kback_sum (kback ss p0) %s %s))" % (steps, p0, x0, xs, x0, xs, x0, xs))
+    return "(let f := %s in obs_ucore f ++ obs_ucache f) ++ %s ++ %s" % (t, " ++ ".join(parts), kal)
 
 
 def alt_terms(d):
@@ -189,6 +198,23 @@ def run_impl(d):
     obsP(ob, p, "filter.")
     for e in evs:
         ob.add("pred", e)
+    # the factorisation of the full joint density at one trajectory (theorem C11_kalman_factorisation), on the
+    # implementation: ln p(x_0) + sum_t [ln p(x_t|x_t-1) + ln p(y_t|x_t)]
+    #                 = evidence + ln filtered(x_T) + sum_t ln p(x_t-1 | x_t, y_1..t-1)
+    traj = d.get("traj") or [[Fr(0)] * Dz] * (T + 1)
+    X = [jarr([x]) for x in traj]
+    p0 = lin.impl_pdfv(d["prior"])
+    ev1 = lambda o, x: float(np.asarray(o.evaluate_ln(x)).reshape(-1)[0])
+    joint = ev1(p0, X[0]); back = 0.0; q = p0
+    for t, y in enumerate(d["ys"]):
+        joint += ev1(st.condition_on_x(X[t]), X[t + 1]) + ev1(em.condition_on_x(X[t + 1]), jarr([y]))
+        back += ev1(st.affine_conditional_transformation(q).condition_on_x(X[t + 1]), X[t])
+        pred = st.affine_marginal_transformation(q)
+        q = em.affine_conditional_transformation(pred).condition_on_x(jarr([y]))
+    filt_T = ev1(p, X[T])
+    ob.add("kevidence", [float(np.sum(evs))]); ob.add("filtered(x_T)", [filt_T]); ob.add("kjoint", [joint]); ob.add("kback_sum", [back])
+    lin.chk(fails, ["C11"], "full joint density = evidence x filtered density x backward kernels at a trajectory", "kalman",
+            [joint], [float(np.sum(evs)) + filt_T + back])
     # dense joint over z_0, z_1..z_T, x_1..x_T built independently, in EXACT rational arithmetic (a float64 dense
     # joint loses up to eight digits for expanding dynamics and T ~ 12: that was a false alarm of the thorough tier)
     from fractions import Fraction as Fr
